@@ -75,13 +75,14 @@ def checkCase (j : Json) : Except String Verdict := do
   let mut idx := 0
   for (c, o) in callers.zip obs do
     let k := modelKey side c
+    let P := if c.method == "revoke" then ["C16", "C19"] else ["C16"]
     let role ← jstr o "role"
     let ikey ← jhex o "key"
     v := v.tag s!"{side}/{c.method}"
     match table.find? (·.1 == k) with
     | some (_, li) =>
-      v := v.cmp idx "role" "follower" role ["C16"]
-      v := v.cmp idx "key" (hex k) (hex ikey) ["C16"]
+      v := v.cmp idx "role" "follower" role P
+      v := v.cmp idx "key" (hex k) (hex ikey) P
       v := { v with nontrivial := true }
       v := v.br s!"{side}/{c.method}/follower"
       let lo := obs[li]!
@@ -112,14 +113,32 @@ def checkCase (j : Json) : Except String Verdict := do
         let fp := fsNorm.compress == (initialSess c).compress
         v := v.mon "C16" "follower_same_updates" idx s!"leader {ls.compress} follower {fs.compress}" (if fp then "sf-follower-session" else "")
     | none =>
-      v := v.cmp idx "role" "leader" role ["C16"]
-      v := v.cmp idx "key" (hex k) (hex ikey) ["C16"]
+      v := v.cmp idx "role" "leader" role P
+      v := v.cmp idx "key" (hex k) (hex ikey) P
       v := v.br s!"{side}/{c.method}/leader"
       table := (k, idx) :: table
       -- monitor: not merged although an identical call (same endpoint+subject) is executing — allowed by the
       -- property only if … it is never allowed: identical overlapping calls must coalesce? No: the property bounds
       -- merging, it does not require it.  Nothing to check here.
     idx := idx + 1
+  -- C19 (on the implementation's own roles and keys): a sign-out's revocation is merged only into a revocation of the
+  -- *same token* — a second session of the same user must get its own call to the identity provider
+  let mut seen : List (Bytes × Caller) := []
+  let mut i := 0
+  for (c, o) in callers.zip obs do
+    let role ← jstr o "role"
+    let ikey ← jhex o "key"
+    if role == "follower" then
+      match seen.find? (·.1 == ikey) with
+      | some (_, lc) =>
+        if c.method == "revoke" && lc.access != c.access then
+          v := v.mon "C19" "revoke_merged_across_tokens" i s!"{showBytes lc.access} / {showBytes c.access}"
+        -- C16 on the implementation's own merging, where the model would not have merged (the model-side pass above reports the rest)
+        if !sameSubject c lc && modelKey side c != modelKey side lc then
+          v := v.mon "C16" "different_subjects_merged" i s!"{showBytes ikey}"
+      | none => pure ()
+    else seen := (ikey, c) :: seen
+    i := i + 1
   pure v
 
 end Sso.Drv.Sfwrap
